@@ -153,7 +153,13 @@ impl fmt::Display for Pieces<'_> {
             if k as i64 == self.panic_at {
                 panic!("verif-user-panic");
             }
-            f.write_str(p)?;
+            // a piece that is exactly one character goes through `write_char` (fmt::Write's provided method unless the
+            // receiver overrides it), the others through `write_str`
+            let mut cs = p.chars();
+            match (cs.next(), cs.next()) {
+                (Some(c), None) => f.write_char(c)?,
+                _ => f.write_str(p)?,
+            }
         }
         Ok(())
     }
